@@ -42,7 +42,8 @@ theorem takeWhile_length_le {α} (p : α → Bool) (l : List α) : (l.takeWhile 
 
 theorem parseTlv_ok_eq {vlt : Vlt} {w : Sl} {t : Tlv} {r : Sl}
     (h : parseTlv vlt w = .ok (t, r)) : TlvEq vlt w t r := by
-  unfold parseTlv at h
+  rw [parseTlv_eq_total] at h
+  unfold parseTlvTotal at h
   dsimp only at h
   split at h
   · cases h
@@ -78,10 +79,13 @@ theorem parseTlv_ok_eq {vlt : Vlt} {w : Sl} {t : Tlv} {r : Sl}
             · simp only [Sl.len, Sl.drop, Sl.take, wstrn, hK, List.length_take, List.length_drop, hmin, hvl']
             · simp only [Sl.len, Sl.drop]
 
-/-- `parse_tlv` answers `Ok` or `Err(Invalid)` on every input: no panic, no ub, no divergence -/
+/-- `parse_tlv` (the checked function, with panicking indexing and slicing) answers `Ok` or
+`Err(Invalid)` on every input: no panic, no ub, no divergence.  The content is `parseTlv_eq_total`
+(Model/Version.lean): every index and slice bound is in range at its site. -/
 theorem parseTlv_total (vlt : Vlt) (w : Sl) :
     (∃ t r, parseTlv vlt w = .ok (t, r)) ∨ parseTlv vlt w = .err .invalid := by
-  unfold parseTlv
+  rw [parseTlv_eq_total]
+  unfold parseTlvTotal
   dsimp only
   repeat' split
   all_goals first
@@ -105,7 +109,8 @@ theorem parseTlv_eq_ok (vlt : Vlt) (w : Sl) (vl : Nat) (K : List Nat)
        ⟨w.off + min (align2 (nodeLen w)) w.ws.length, w.ws.drop (min (align2 (nodeLen w)) w.ws.length)⟩) := by
   have hmin : min (nodeLen w) w.ws.length = nodeLen w := by omega
   have hvl' : min vl (nodeLen w - min (align2 K.length + 4) (nodeLen w)) = vl := by omega
-  unfold parseTlv
+  rw [parseTlv_eq_total]
+  unfold parseTlvTotal
   dsimp only
   rw [if_neg (by simp only [Sl.len]; omega), hvl]
   dsimp only
